@@ -36,6 +36,10 @@ class _Stop(BaseException):
     """Soft time budget reached: stop generating (fewer cases, never a violation)."""
 
 
+class _StopShrink(BaseException):
+    """Shrink budget reached: keep the smallest failing case seen so far."""
+
+
 class _Violation(Exception):
     pass
 
@@ -128,6 +132,10 @@ def _worker(prop: str, tier: str, w: int, nworkers: int, seed: int, budget: int,
             time_budget: float, known_patterns: list[str], outpath: str) -> None:
     result: dict[str, Any] = {"worker": w, "status": "ok"}
     try:
+        import faulthandler
+        import signal as _signal
+
+        faulthandler.register(_signal.SIGUSR1, all_threads=True)  # kill -USR1 <pid> dumps the stack
         _quiet()
         import hypothesis
         from hypothesis import HealthCheck, Phase, Verbosity, given, settings
@@ -183,13 +191,19 @@ def _worker(prop: str, tier: str, w: int, nworkers: int, seed: int, budget: int,
         remaining = budget
         rnd = 0
         timed_out = False
-        while remaining > 0 and len(found) < MAX_ROOT_CAUSES and not timed_out:
+        while (remaining > 0 and len(found) < MAX_ROOT_CAUSES and not timed_out
+               and time.monotonic() - t_start < time_budget):
             st8: dict[str, Any] = {"target": None, "t_fail": None, "seen_fail": {}, "last": None, "gen": 0}
 
             def body(case: Any) -> None:
                 generating = st8["target"] is None
                 if generating and time.monotonic() - t_start > time_budget:
                     raise _Stop()
+                if not generating and (time.monotonic() - st8["t_fail"] > shrink_cap
+                                       or time.monotonic() - t_start > time_budget + shrink_cap):
+                    # shrink budget used: leave Hypothesis with the smallest failing case seen so
+                    # far (its shrinker only ever moves to smaller cases); harness.minimize goes on
+                    raise _StopShrink()
                 out = run_one(eng, case, prop)
                 stats.record(case, out, generating)
                 if generating:
@@ -201,8 +215,6 @@ def _worker(prop: str, tier: str, w: int, nworkers: int, seed: int, budget: int,
                 if st8["target"] is None:
                     st8["target"] = d.bucket
                     st8["t_fail"] = time.monotonic()
-                elif time.monotonic() - st8["t_fail"] > shrink_cap and h not in st8["seen_fail"]:
-                    return  # shrink budget used: accept no new smaller candidates
                 st8["seen_fail"][h] = True
                 st8["last"] = {"bucket": d.bucket, "cls": d.cls, "msg": d.msg, "case": case}
                 raise _Violation(d.msg)
@@ -221,7 +233,7 @@ def _worker(prop: str, tier: str, w: int, nworkers: int, seed: int, budget: int,
             test = hypothesis.seed(seed * 1009 + w + 7919 * rnd)(test)
             try:
                 test()
-            except _Violation:
+            except (_Violation, _StopShrink):
                 pass
             except _Stop:
                 timed_out = True
@@ -235,6 +247,10 @@ def _worker(prop: str, tier: str, w: int, nworkers: int, seed: int, budget: int,
                 result.setdefault("notes", []).append(f"hypothesis: {type(exc).__name__}: {str(exc)[:300]}")
             remaining -= max(st8["gen"], 1)
             if st8["last"] is not None:
+                from harness.minimize import minimize
+
+                st8["last"]["case"] = minimize(eng, prop, st8["last"]["case"], st8["last"]["bucket"], run_one,
+                                               20.0 if tier == "quick" else 120.0)
                 found.append(st8["last"])
                 excluded.append(_escape(st8["last"]["bucket"]))
             elif not timed_out:
